@@ -109,6 +109,7 @@ func runC16(w *W) {
 		w.Sig(fmt.Sprintf("deep:reqs%d", knobs.ReqsCap))
 	}
 	so.SplitFiles = !so.ConstDefaults && t.Chance(1, 4, "sch.split")
+	so.Typedefs, so.ZeroID = t.Chance(1, 3, "sch.typedefs"), t.Chance(1, 4, "sch.zeroid")
 	sch := genSchema(t, so)
 	if deep && t.Chance(1, 2, "deep.reqscap.exact") {
 		// an arena that the bitmaps of the first k levels of the chain fill exactly
